@@ -484,4 +484,179 @@ theorem compileBeginAny_keep_Ff {fnOk : Bool} {self : String} {es : List Expr} (
   subst h
   exact hk
 
+def tailCode (h : String) (sc : Nat) (args : List Expr) (code : List Instr) : List Instr :=
+  [.tailGuard h (code.length + sc + 4)] ++ code ++ [.prepareCall h args.length] ++ List.replicate (sc + 1) .removeScope
+    ++ [.goto 0, .callExpr (.sym h) args]
+
+def knownFn (c : Ctx) (gs : GS) (h : String) : Option FnObj := (c.known.lookup h).bind (fun t => gs.fns[t]?)
+
+def arityOk (f : Option FnObj) (n : Nat) : Bool :=
+  match f with
+  | some fo => if fo.varargs then decide (fo.nargs ≤ n) else n == fo.nargs
+  | none => true
+
+theorem compile_call_eq (isFn : Nat → Bool) (c : Ctx) (h : String) (args : List Expr) (gs : GS) :
+    (compile isFn c (.call (.sym h) args)).run gs =
+      if (c.tail && h == c.funcname) = true ∧ arityOk (knownFn c gs h) args.length = true then
+        (match (compileCallArgs isFn { c with tail := false } (knownFn c gs h) 0 args).run gs with
+         | .ok (code, gs') => .ok ((tailCode h c.scopes args code, c.tail), gs')
+         | .error e => .error e)
+      else .ok (([.callExpr (.sym h) args], c.tail), gs) := by
+  rw [compile]
+  by_cases h1 : (c.tail && h == c.funcname) = true
+  · simp only [h1, if_true, true_and]
+    simp only [bind, StateT.bind, StateT.run, get, getThe, MonadStateOf.get, StateT.get, pure, Except.pure, Except.bind,
+      StateT.pure]
+    unfold knownFn
+    generalize (List.lookup h c.known).bind (fun t => gs.fns[t]?) = f
+    have key : (StateT.bind (compileCallArgs isFn { c with tail := false } f 0 args)
+          (fun code => StateT.pure ([Instr.tailGuard h (code.length + c.scopes + 4)] ++ code ++ [Instr.prepareCall h args.length] ++
+                  List.replicate (c.scopes + 1) Instr.removeScope ++ [Instr.goto 0, Instr.callExpr (Expr.sym h) args], c.tail))) gs
+        = (match compileCallArgs isFn { c with tail := false } f 0 args gs with
+             | .ok (code, gs') => .ok ((tailCode h c.scopes args code, c.tail), gs')
+             | .error e => .error e) := by
+      unfold StateT.bind tailCode
+      cases compileCallArgs isFn { c with tail := false } f 0 args gs with
+      | ok v => rfl
+      | error e => rfl
+    have push : ∀ (b : Bool) (F G : GS → Except Unit ((List Instr × Bool) × GS)),
+        (if b = true then F else G) gs = if b = true then F gs else G gs := by
+      intro b F G; cases b <;> rfl
+    rw [push, key]
+    cases f with
+    | none => rfl
+    | some fo => rfl
+  · simp only [h1, false_and, if_false]
+    rfl
+
+
+/-- inside a `for`: the records completed so far (the loop's own record is still open) -/
+theorem LoopsFinal.for_body {gs g2 g5 : GS} {c : Ctx} {label : Option String} {b k : Int} {s : St}
+    (h : LoopsFinal (forDone g5 gs.loops.length b k) s) (h1 : KeepFns (forGs gs c label) g2) (h2 : KeepFns g2 g5) :
+    LoopsFinal g2 s := by
+  have hl5 : (forDone g5 gs.loops.length b k).loops.length = g5.loops.length := by simp [forDone]
+  have hst2 : g2.loopstack = gs.loops.length :: gs.loopstack := h1.loopstack
+  have hst5 : (forDone g5 gs.loops.length b k).loopstack = gs.loopstack := by
+    show g5.loopstack.drop 1 = _
+    rw [h2.loopstack, hst2]; rfl
+  refine ⟨Nat.le_trans h2.loopsLen (hl5 ▸ h.1), fun id hid hns => ?_⟩
+  rw [hst2] at hns
+  have hne : gs.loops.length ≠ id := fun e => hns (e ▸ List.mem_cons_self ..)
+  rw [h.2 id (by rw [hl5]; exact Nat.lt_of_lt_of_le hid h2.loopsLen)
+    (by rw [hst5]; exact fun hm => hns (List.mem_cons_of_mem _ hm))]
+  show (g5.loops.set gs.loops.length _).getD id {} = _
+  rw [List.getD_eq_getElem?_getD, List.getElem?_set_ne hne, ← List.getD_eq_getElem?_getD]
+  exact h2.loopsGet id hid
+
+/-! ## Self tail calls: the generator on tail positions (`Fz`) -/
+
+theorem okParam_no_hash {p : String} (h : okParam p = true) : p.startsWith "#" = false := by
+  unfold okParam at h; simp only [Bool.and_eq_true, Bool.not_eq_true'] at h
+  exact h.2
+
+/-- no operand of a call of a function with these formals is delayed -/
+theorem notLazy_of_params {fo : FnObj} {ps : List String} (hp : fo.params = ps) (hok : ∀ p ∈ ps, okParam p = true) (i : Nat) :
+    fo.isLazyCallArg i = false := by
+  unfold FnObj.isLazyCallArg
+  split
+  · rfl
+  · rw [hp]
+    cases hi : ps[i]? with
+    | none => rfl
+    | some p => exact okParam_no_hash (hok p (List.mem_of_getElem? hi))
+
+/-- an operand compiled inline -/
+theorem compileCallArgs_cons_run {isFn : Nat → Bool} {c : Ctx} {f : Option FnObj} {i : Nat} {e : Expr} {es : List Expr}
+    {gs : GS} {r : List Instr × GS} (hl : ∀ fo, f = some fo → fo.isLazyCallArg i = false) :
+    (compileCallArgs isFn c f i (e :: es)).run gs = .ok r ↔
+      ∃ ra g1 rb, (compile isFn c e).run gs = .ok (ra, g1) ∧ (compileCallArgs isFn c f (i + 1) es).run g1 = .ok (rb, r.2)
+        ∧ r.1 = ra.1 ++ rb := by
+  rw [compileCallArgs.eq_def]
+  have key : (do let a ← (do let (a, _) ← compile isFn c e; pure a : G (List Instr))
+                 let b ← compileCallArgs isFn c f (i + 1) es
+                 pure (a ++ b) : G (List Instr)).run gs = .ok r ↔
+      ∃ ra g1 rb, (compile isFn c e).run gs = .ok (ra, g1) ∧ (compileCallArgs isFn c f (i + 1) es).run g1 = .ok (rb, r.2)
+        ∧ r.1 = ra.1 ++ rb := by
+    simp only [g_bind_ok, g_pure_ok]
+    constructor
+    · rintro ⟨a, g1, ⟨ra, g1', h1, h2⟩, b, g2, h3, h4⟩
+      obtain ⟨rfl, rfl⟩ := Prod.mk.inj h2
+      subst h4
+      exact ⟨ra, _, b, h1, h3, rfl⟩
+    · rintro ⟨ra, g1, rb, h1, h2, h3⟩
+      exact ⟨ra.1, g1, ⟨ra, g1, h1, rfl⟩, rb, r.2, h2, by rw [← h3]⟩
+  cases f with
+  | none => simpa using key
+  | some fo =>
+    have := hl fo rfl
+    simpa [this] using key
+
+theorem compileCallArgs_total : ∀ (self : String) (args : List Expr), FfList false self args = true →
+    ∀ isFn c f i gs, FnameOk self c → ∃ code gs', (compileCallArgs isFn c f i args).run gs = .ok (code, gs') ∧ KeepFns gs gs'
+  | _, [], _, isFn, c, f, i, gs, _ => ⟨[], gs, by rw [compileCallArgs.eq_def]; rfl, KeepFns.refl _⟩
+  | self, e :: es, he, isFn, c, f, i, gs, hfn => by
+    rw [FfList] at he
+    simp only [Bool.and_eq_true] at he
+    obtain ⟨a, t, g1, ha, _, hk1⟩ := compile_total_Ff false self e he.1 isFn c gs hfn
+    have key : ∀ (b : Bool), ∃ code gs', (do
+          let a ← (if b = true then pure [Instr.pushLazy e] else (do let (a, _) ← compile isFn c e; pure a) : G (List Instr))
+          let r ← compileCallArgs isFn c f (i + 1) es
+          pure (a ++ r) : G (List Instr)).run gs = .ok (code, gs') ∧ KeepFns gs gs' := by
+      intro b
+      cases b
+      · obtain ⟨r, g2, hr, hk2⟩ := compileCallArgs_total self es he.2 isFn c f (i + 1) g1 hfn
+        refine ⟨a ++ r, g2, ?_, hk1.1.trans hk2⟩
+        simp only [Bool.false_eq_true, if_false, g_bind_ok, g_pure_ok]
+        exact ⟨_, _, ⟨_, _, ha, rfl⟩, _, _, hr, rfl⟩
+      · obtain ⟨r, g2, hr, hk2⟩ := compileCallArgs_total self es he.2 isFn c f (i + 1) gs hfn
+        refine ⟨[.pushLazy e] ++ r, g2, ?_, hk2⟩
+        simp only [if_true, g_bind_ok, g_pure_ok]
+        exact ⟨_, _, rfl, _, _, hr, rfl⟩
+    rw [compileCallArgs.eq_def]
+    exact key _
+
+theorem tailCode_ne_nil (h : String) (sc : Nat) (args : List Expr) (code : List Instr) : tailCode h sc args code ≠ [] := by
+  simp [tailCode]
+
+/-- a call in tail position: an ordinary call, or (own name, right arity) the tail sequence -/
+theorem compile_total_call {self h : String} {args : List Expr} (hh : (h != "") = true) (hhead : okHead h = true)
+    (hself : (h != self) = true ∨ FfList false self args = true) (isFn : Nat → Bool) (c : Ctx) (gs : GS) (hfn : FnameOk self c) :
+    ∃ code gs', (compile isFn c (.call (.sym h) args)).run gs = .ok ((code, c.tail), gs') ∧ code ≠ [] ∧ KeepFns gs gs' := by
+  rw [compile_call_eq]
+  by_cases hc : (c.tail && h == c.funcname) = true ∧ arityOk (knownFn c gs h) args.length = true
+  · rw [if_pos hc]
+    have hhc : h = c.funcname := by have := hc.1; simp only [Bool.and_eq_true, beq_iff_eq] at this; exact this.2
+    have hargs : FfList false self args = true := by
+      rcases hself with hne | ha
+      · have := ff_call_ne hfn hne hh hhead
+        rw [← hhc] at this; simp at this
+      · exact ha
+    have hfn' : FnameOk self { c with tail := false } := hfn
+    obtain ⟨code, g1, hcode, hk⟩ := compileCallArgs_total self args hargs isFn { c with tail := false } (knownFn c gs h) 0 gs hfn'
+    refine ⟨tailCode h c.scopes args code, g1, ?_, tailCode_ne_nil _ _ _ _, hk⟩
+    have : (compileCallArgs isFn { c with tail := false } (knownFn c gs h) 0 args).run gs = .ok (code, g1) := hcode
+    rw [this]
+  · rw [if_neg hc]
+    exact ⟨_, gs, rfl, by simp, KeepFns.refl _⟩
+
+/-! ## What the generator knows about the function being compiled -/
+
+theorem knownOk_bodyCtx (isFn : Nat → Bool) (c : Ctx) (gs : GS) (name : String) (ps : List String) (body : List Expr) :
+    KnownOk (bodyCtx c gs name ps body) (gsAlloc isFn gs name ps) ps := by
+  intro hne
+  right
+  have hf : (bodyCtx c gs name ps body).funcname = name := by
+    unfold bodyCtx at hne ⊢
+    simp only at hne ⊢
+    split
+    · rfl
+    · rename_i h; rw [if_neg h] at hne; exact absurd rfl hne
+  rw [hf]
+  refine ⟨gs.fns.length, by simp [bodyCtx, List.lookup], by simp [gsAlloc], ?_, ?_, ?_⟩ <;>
+    simp [gsAlloc, tmplOf, List.getD_eq_getElem?_getD]
+
+theorem knownOk_anonCtx (c : Ctx) (gs gs0 : GS) (ps : List String) : KnownOk (anonCtx c gs) gs0 ps :=
+  fun _ => Or.inl ⟨gs.fns.length, rfl⟩
+
+
 end ZygoVerif.Sim
